@@ -26,6 +26,11 @@ class TeeProcessor:
     def _tee_pipe_run(
         self, pipe: IO[bytes], stream: TextIO, file_name: pathlib.Path
     ) -> None:
+        # Conductor's own stream may stop accepting data (e.g., when Conductor's
+        # output is piped into a program that exits). We then stop forwarding
+        # to it, but we must keep recording the output and draining the pipe;
+        # otherwise the log would be incomplete and the task would block.
+        stream_ok = True
         with open(file_name, "wb") as file:
             while True:
                 # Read up to 4096 bytes at a time, but return as soon as we read
@@ -35,7 +40,16 @@ class TeeProcessor:
                     # End of the stream.
                     break
                 file.write(data)
-                stream.buffer.write(data)
-                # Needed to maintain interactivity.
-                stream.flush()
-            stream.flush()
+                if not stream_ok:
+                    continue
+                try:
+                    stream.buffer.write(data)
+                    # Needed to maintain interactivity.
+                    stream.flush()
+                except (OSError, ValueError):
+                    stream_ok = False
+            if stream_ok:
+                try:
+                    stream.flush()
+                except (OSError, ValueError):
+                    pass
